@@ -28,7 +28,7 @@ def build(rng, tier):
         mts = g.structures()
         allsegs = sorted(n for n in g.lib.SEGMENTS if n not in ('MSH', 'ANYHL7SEGMENT'))
         for mt in rng.sample(mts, min(len(mts), per)):
-            for style in ('plain', 'foreign', 'zseg', 'repeat', 'overflow', 'shuffle', 'blank'):
+            for style in ('plain', 'foreign', 'zseg', 'repeat', 'overflow', 'shuffle', 'blank', 'delims'):
                 try:
                     t, der, names = g.message(mt, 'random', rich=False)
                 except Exception:  # noqa
@@ -48,7 +48,7 @@ def build(rng, tier):
                 lines = [g.msh(mt)]
                 for n in names:
                     if n in g.lib.SEGMENTS and rng.random() < .5:
-                        lines.append(g.segment(n, mode='canon', overflow=(style == 'overflow'), fill=.25))
+                        lines.append(g.segment(n, mode='canon', overflow=(style in ('overflow', 'delims')), fill=.25))
                     elif n[:1] == 'Z' and n not in g.lib.SEGMENTS:
                         lines.append(g.zsegment(n))
                     else:
@@ -57,7 +57,17 @@ def build(rng, tier):
                     # empty lines between segments (and after the last one) carry no content: nothing after them may be lost
                     for _ in range(rng.randint(1, 2)):
                         lines.insert(rng.randrange(1, len(lines) + 1), '')
-                out.append((v, mt, style, '\r'.join(lines)))
+                text = '\r'.join(lines)
+                chars = DEF
+                if style == 'delims':
+                    # the same message spelled with another delimiter set (declared in MSH-1 / MSH-2): fields beyond the defined count, with
+                    # components and subcomponents, must be split by the message's own characters like every other field (seed C03-h)
+                    pool = [c for c in '!$%*+/:;<=>?@[]{}' if c not in text]
+                    if len(pool) < 5:
+                        continue
+                    chars = ''.join(rng.sample(pool, 5))
+                    text = text.translate({ord(a): b for a, b in zip(DEF, chars)})
+                out.append((v, mt, style, text, chars))
     return out
 
 
@@ -67,14 +77,14 @@ def run(tier, seed):
     chk.proof(MODULES, THEOREMS)
     ex = excluded()
     msgs = build(rng, tier)
-    jobs = [(t, False, fg) for (v, mt, st, t) in msgs for fg in (True, False)]
-    meta = [(v, mt, st) for (v, mt, st, t) in msgs for fg in (True, False)]
+    jobs = [(t, False, fg) for (v, mt, st, t, ch) in msgs for fg in (True, False)]
+    meta = [(v, mt, st, ch) for (v, mt, st, t, ch) in msgs for fg in (True, False)]
     a = vlib.pmap(impl.msg, jobs)
     mo = vlib.run_driver(['MSG T T 2.5 %d %s' % (1 if j[2] else 0, vlib.hexs(j[0])) for j in jobs])
     chk.correspond('parse_message(text, TOLERANT, find_groups).to_er7() + tree vs Hl7.Msg.parseMessage/encMessage', jobs, a, mo,
                    show=lambda j: {'text': j[0], 'find_groups': j[2]})
     kinds = {}
-    for j, (v, mt, style), o, m in zip(jobs, meta, a, mo):
+    for j, (v, mt, style, chars), o, m in zip(jobs, meta, a, mo):
         chk.evals += 1
         text, _, fg = j
         rep = {'api': 'parse_message(text, TOLERANT, find_groups).to_er7()', 'text': text, 'find_groups': fg}
@@ -102,17 +112,17 @@ def run(tier, seed):
             continue
         chk.nontrivial.add((text, fg))
         for li, lo in zip(inp, outl):
-            if leaves(li) != leaves(lo):
+            if leaves(li, chars) != leaves(lo, chars):
                 n = li[:3].upper()
                 key = 'T:%s:%s' % (v, n) if (n in ex.get(v, []) and agree) else None
                 chk.fail(key, {'clause': 'same-leaves-same-order', 'version': v, 'segment_in': li, 'segment_out': lo, 'find_groups': fg}, rep)
                 break
     chk.dist['result_kinds'] = kinds
     chk.dist['messages'] = len(msgs)
-    chk.rule = ('per version, instances of random message structures in seven styles: as derived; with 1-2 segments of other message types inserted; with a Z-segment; '
-                'with a repeated segment; with fields/components beyond the defined count; with two segments swapped; with empty lines between segments. Each parsed with find_groups on and off under '
+    chk.rule = ('per version, instances of random message structures in eight styles: as derived; with 1-2 segments of other message types inserted; with a Z-segment; '
+                'with a repeated segment; with fields/components beyond the defined count; with two segments swapped; with empty lines between segments; the overflow style spelled with a random other delimiter set. Each parsed with find_groups on and off under '
                 'TOLERANT. Non-trivial = distinct (text, find_groups) whose encoding keeps all segments in order.')
-    chk.samples = [{'version': v, 'structure': mt, 'style': st, 'text': t[:160]} for (v, mt, st, t) in msgs[::max(1, len(msgs) // 8)]][:8]
+    chk.samples = [{'version': v, 'structure': mt, 'style': st, 'text': t[:160]} for (v, mt, st, t, ch) in msgs[::max(1, len(msgs) // 8)]][:8]
     chk.assumptions = ['leaf values are canonical (escape-stable, datatype-stable): normalisation of non-canonical leaves is C06/C13']
     return chk.finish()
 
